@@ -51,7 +51,7 @@ func main() {
 
 	r := hlib.NewRand(cfg.Seed)
 	switch part {
-	case "", "codecs", "bin", "url", "txt", "radix", "hash", "json":
+	case "", "codecs", "bin", "url", "txt", "radix", "hash", "json", "xml":
 		ops := genCodecOps(cfg, part, r, o)
 		ev.evalOps(o, ops)
 	case "laws":
